@@ -8,5 +8,7 @@ import (
 	_ "verifharness/c05"
 	_ "verifharness/c06"
 	_ "verifharness/c10"
+	_ "verifharness/c10r"
+	_ "verifharness/c14"
 	_ "verifharness/c18"
 )
